@@ -584,18 +584,29 @@ class DiGraph(object):
         idoms = self.compute_immediate_dominators(head)
         frontier = {}
 
-        for node in idoms:
-            if len(self._nodes_pred[node]) >= 2:
-                for predecessor in self.predecessors_iter(node):
-                    runner = predecessor
-                    if runner not in idoms:
-                        continue
-                    while runner != idoms[node]:
-                        if runner not in frontier:
-                            frontier[runner] = set()
+        # Nodes reachable from the head: the head (which has no immediate
+        # dominator) and the nodes which have one
+        reachable = set(idoms)
+        reachable.add(head)
 
-                        frontier[runner].add(node)
-                        runner = idoms[runner]
+        for node in reachable:
+            # The head can be a join point too (it is, as soon as it has one
+            # reachable predecessor)
+            if len(self._nodes_pred[node]) < 2 and node != head:
+                continue
+            node_idom = idoms.get(node, None)
+            for predecessor in self.predecessors_iter(node):
+                runner = predecessor
+                if runner not in reachable:
+                    continue
+                while runner != node_idom:
+                    if runner not in frontier:
+                        frontier[runner] = set()
+
+                    frontier[runner].add(node)
+                    if runner == head:
+                        break
+                    runner = idoms[runner]
         return frontier
 
     def _walk_generic_first(self, head, flag, succ_cb):
